@@ -155,6 +155,26 @@ theorem unit_independence (it1 : Item Rat) (wf : it1.WF) (h0 : it1.rawData = tru
       (it1.runCode (cs1 ++ [.getSIData])).2[cs1.length]? :=
   unit_independence_obs _ it1 wf h0 act2 hl ha2 cs1 cs2
 
+/-! ## output side: `data::Solution::convertFromSI / convertToSI` -/
+
+/-- values converted to output units and back with the same tables are the SI values again, for
+every system, every measure and all data; the `identity` vectors are never touched -/
+theorem solution_roundtrip (s : SysDef Rat) (hs : s ∈ systems Rat) (sol : Sol Rat) (hsi : sol.si = true)
+    (hm : ∀ c ∈ sol.cells, c.1 < measureNames.length) :
+    (sol.convertFromSI s).convertToSI s = sol :=
+  OpmVerif.Units.solution_roundtrip s hs sol hsi hm
+
+theorem solution_roundtrip_output (s : SysDef Rat) (hs : s ∈ systems Rat) (sol : Sol Rat) (hsi : sol.si = false)
+    (hm : ∀ c ∈ sol.cells, c.1 < measureNames.length) :
+    (sol.convertToSI s).convertFromSI s = sol :=
+  OpmVerif.Units.solution_roundtrip' s hs sol hsi hm
+
+/-- a second conversion in the same direction is a no-op (the `si` flag) -/
+theorem solution_idempotent (s : SysDef Rat) (sol : Sol Rat) :
+    (sol.convertFromSI s).convertFromSI s = sol.convertFromSI s ∧
+      (sol.convertToSI s).convertToSI s = sol.convertToSI s :=
+  OpmVerif.Units.solution_idempotent s sol
+
 /-! ## non-vacuity -/
 
 -- a FIELD pressure: psi → Pa → psi
@@ -201,5 +221,10 @@ example : (witnessItem.run false [.getSI 0, .get 0]).2 = [.val (Spec.dec 3048 2)
 -- re-expression: 100 ft written in a METRIC deck is 30.48 m; a defaulted value stays
 example : (({ witnessItem with dval := [100, 7], status := [.deckValue, .validDefault] } : Item Rat).inSystem
       [⟨some 1, 0⟩]).dval = [Spec.dec 3048 2, 7] := by decide +kernel
+
+-- a FIELD solution: pressure (Pa → psi), temperature (K → °F), an identity vector
+example : let sol : Sol Rat := { si := true, cells := [(5, [Spec.psi * 3000]), (7, [Spec.degFOffset + 60 * Spec.degF]), (0, [42])] }
+    (sol.convertFromSI (sys.UNIT_TYPE_FIELD Rat)).cells = [(5, [3000]), (7, [60]), (0, [42])] ∧
+    (∀ c ∈ sol.cells, c.1 < measureNames.length) := by decide +kernel
 
 end OpmVerif.Props.C02
